@@ -46,7 +46,31 @@ def purge_version_modules(version):
     T._cache.pop(version, None)
 
 
-def globals_digest(ids=True, skip=()):
+def _walk_table(o, seen, h):
+    """Deterministic content digest of a table: every distinct container is hashed once and referred to
+    by its first-visit number afterwards (the tables share sub-structures heavily)."""
+    if isinstance(o, (list, tuple, dict)):
+        i = id(o)
+        n = seen.get(i)
+        if n is not None:
+            h.update(b'R%d;' % n)
+            return
+        seen[i] = len(seen)
+        if isinstance(o, dict):
+            for k in sorted(o):
+                h.update(repr(k).encode())
+                _walk_table(o[k], seen, h)
+        else:
+            h.update(b'L(' if isinstance(o, list) else b'T(')
+            for x in o:
+                _walk_table(x, seen, h)
+            h.update(b')')
+    else:
+        h.update(repr(o).encode() if not isinstance(o, type) else o.__name__.encode())
+        h.update(b',')
+
+
+def globals_digest(ids=True, skip=(), deep_versions=()):
     """Digest of the process-global objects every call can reach (DESIGN §5)."""
     import sys
     import hl7apy
@@ -63,6 +87,15 @@ def globals_digest(ids=True, skip=()):
         if m is not None and name not in skip:
             put(name, sorted((k, v.__module__ + '.' + v.__qualname__) for k, v in m.BASE_DATATYPES.items()))
             put(name, 'elements', sorted(m.ELEMENTS), [id(m.ELEMENTS[k]) for k in sorted(m.ELEMENTS)] if ids else None)
+    # content of the structure tables of the versions this run works with (the tables hold mutable
+    # lists: a call that edits a shared reference poisons every later call)
+    for v in sorted(deep_versions):
+        name = 'hl7apy.v' + v.replace('.', '_')
+        m = sys.modules.get(name)
+        if m is not None and name not in skip:
+            seen = {}
+            for k_ in sorted(m.ELEMENTS):
+                _walk_table(m.ELEMENTS[k_], seen, h)
     for cls in (core.Element, core.SupportComplexDataType, core.SubComponent, core.Component, core.Field,
                 core.Segment, core.Group, core.Message, core.ElementProxy):
         ca = getattr(cls, 'cls_attrs', None)
@@ -122,7 +155,18 @@ class ThreadWorld:
             for v in cold_import:
                 purge_version_modules(v)
         skip = ['hl7apy.v' + v.replace('.', '_') for v in (cold_import or ())]
-        g0 = globals_digest(ids=not cold_import, skip=skip)
+        used = set()
+        for prog in actors:
+            for c in prog:
+                if c.get('version'):
+                    used.add(c['version'])
+                elif c.get('kind') == 'parse_message':
+                    try:
+                        used.add(c['text'].split('\r', 1)[0].split(c['text'][3])[11])
+                    except Exception:
+                        pass
+        used = {v for v in used if v in corpus.T.VERSIONS}
+        g0 = globals_digest(ids=not cold_import, skip=skip, deep_versions=used)
         seed = case.get('seed', 0)
         threads_first = cfg.get('order') == 'threads_first'
 
@@ -130,7 +174,7 @@ class ThreadWorld:
             # every call of every actor alone, in program order, same process
             for aid, prog in enumerate(actors):
                 self.expected[aid] = [corpus.run_call(c) for c in prog]
-            if globals_digest(ids=not cold_import, skip=skip) != g0:
+            if globals_digest(ids=not cold_import, skip=skip, deep_versions=used) != g0:
                 self.violate('C19.globals', 'process-global state changed by sequential calls', 'digest differs')
 
         if not threads_first:
@@ -149,7 +193,7 @@ class ThreadWorld:
             self.capped = k.run()
         finally:
             k.shutdown()
-        g_after_threads = globals_digest(ids=not cold_import, skip=skip)
+        g_after_threads = globals_digest(ids=not cold_import, skip=skip, deep_versions=used)
         if threads_first:
             # the concurrent phase met every lazily initialised path of the library cold; the
             # sequential reference comes afterwards
